@@ -128,7 +128,7 @@ Proof. exact sealed. Qed.
    in the source now, are the declarations the theorems above are about *)
 From Coq Require Import String.
 From GA Require Import SigTie.
-From GAGen Require Import GenSigs.
+From GAGen Require Import GenSigs GenLifetimes.
 Local Open Scope string_scope.
 
 Theorem C12_source_seq_impls :
@@ -159,3 +159,18 @@ Proof. exact tie_sealing. Qed.
 
 Theorem C12_source_tuples : gen_tuple_sizes = tuple_sizes.
 Proof. exact tie_tuple_sizes. Qed.
+
+(* the lifetimes of every reference-returning safe function, regenerated with elision applied
+   (coq/gen/GenLifetimes.v): each is sound, the hand-stated ones are all present, and each has
+   a single source reference that every result reference is tied to *)
+Theorem C12_source_signatures_sound : forall n s, In (n, s) gen_signatures -> sound_sig s = true.
+Proof. exact tie_lifetimes_sound. Qed.
+
+Theorem C12_source_signatures_cover :
+  forallb (fun n => existsb (String.eqb n) (map fst gen_signatures)) lifetime_names_required = true.
+Proof. exact tie_lifetimes_cover. Qed.
+
+Theorem C12_source_signatures_shape :
+  forallb (fun p => single_source_shape (snd p)) gen_signatures = true.
+Proof. exact tie_lifetimes_shape. Qed.
+
